@@ -180,13 +180,15 @@ pub fn s_small(p: &BigUint, nbytes: usize, dense: bool) -> Vec<BigUint> {
         v.push(f.inv(&r).unwrap());
         v.push(f.neg(&r));
     }
-    // a few unstructured values (fixed)
-    let mut x = BigUint::from(0x9e3779b97f4a7c15u64);
-    for _ in 0..6 {
-        x = (&x * &x + BigUint::from(12345u32)) % p;
-        v.push(x.clone());
-    }
-    dedup(v)
+    // unstructured members: a fixed pseudo-random family (see `prand`)
+    let keep = v.clone();
+    v.extend(prand(0x51, if dense { 96 } else { 40 }, p));
+    let mut v = dedup(v);
+    // callers index "the last element" as a Montgomery-ish structured value: keep order stable
+    v.retain(|x| !keep.contains(x));
+    let mut out = dedup(keep);
+    out.extend(v);
+    out
 }
 
 /// S_limb: each 32-bit limb independently from `pat`, reduced mod p
@@ -291,4 +293,37 @@ pub fn hexle(b: &BigUint, n: usize) -> String {
 }
 pub fn is_zero_big(b: &BigUint) -> bool {
     b.is_zero()
+}
+
+// -------------------------------------------------------------------------------------------
+// fixed pseudo-random families: a deterministic splitmix64 stream (seeded by VERIF_SEED) whose
+// first n outputs are PART OF THE LISTED DOMAIN. They add "unstructured" members (no special
+// limb or bit pattern) next to the structured families; nothing is sampled at run time.
+
+pub struct SplitMix(pub u64);
+impl SplitMix {
+    pub fn next(&mut self) -> u64 {
+        self.0 = self.0.wrapping_add(0x9e3779b97f4a7c15);
+        let mut z = self.0;
+        z = (z ^ (z >> 30)).wrapping_mul(0xbf58476d1ce4e5b9);
+        z = (z ^ (z >> 27)).wrapping_mul(0x94d049bb133111eb);
+        z ^ (z >> 31)
+    }
+    pub fn bytes(&mut self, n: usize) -> Vec<u8> {
+        let mut v = Vec::with_capacity(n + 8);
+        while v.len() < n {
+            v.extend_from_slice(&self.next().to_le_bytes());
+        }
+        v.truncate(n);
+        v
+    }
+}
+pub fn verif_seed() -> u64 {
+    std::env::var("VERIF_SEED").ok().and_then(|s| s.parse().ok()).unwrap_or(0)
+}
+/// n pseudo-random field elements (uniform-ish: 2x wide reduction), stream label `tag`
+pub fn prand(tag: u64, n: usize, p: &BigUint) -> Vec<BigUint> {
+    let mut g = SplitMix(verif_seed() ^ tag.wrapping_mul(0xD6E8FEB86659FD93));
+    let nb = ((p.bits() as usize + 7) / 8) * 2;
+    (0..n).map(|_| BigUint::from_bytes_le(&g.bytes(nb)) % p).collect()
 }
